@@ -77,6 +77,8 @@ pub struct Shared {
     pub in_cycle: AtomicBool,
     pub hook_count: AtomicUsize,
     pub op_sleep_us: AtomicU64,
+    pub nrecs: AtomicUsize,            // records the reporter has been given so far
+    pub last_rec_us: AtomicU64,        // when the last non-empty batch arrived
 }
 
 pub fn shared() -> &'static Shared {
@@ -97,6 +99,8 @@ pub fn shared() -> &'static Shared {
         in_cycle: AtomicBool::new(false),
         hook_count: AtomicUsize::new(0),
         op_sleep_us: AtomicU64::new(0),
+        nrecs: AtomicUsize::new(0),
+        last_rec_us: AtomicU64::new(0),
     })
 }
 
@@ -322,6 +326,10 @@ impl Reporter for CapturingReporter {
             return;
         }
         emit(json!({"ev":"report","w":wall_us(),"recs":spans.iter().map(record_json).collect::<Vec<_>>()}));
+        if !spans.is_empty() {
+            shared().nrecs.fetch_add(spans.len(), Ordering::SeqCst);
+            shared().last_rec_us.store(mono_us() as u64, Ordering::SeqCst);
+        }
     }
 }
 
